@@ -28,15 +28,16 @@ schema('TaskPool', 'cylc.flow.task_pool:TaskPool', fields={
     'task_events_mgr': 'TaskEventsManager', 'stop_point': 'opt[IntegerPoint]',
     'runahead_limit_point': 'opt[IntegerPoint]', 'stop_task_id': 'opt[str]', 'stop_task_finished': 'bool'})
 
-_LOOP_MOD = ['all:TaskState.is_runahead', 'all:TaskState.time_updated', 'all:TaskState.is_updated',
-             'all:TaskState.kill_failed']
+_LOOP_MOD = ['all:TaskState.is_runahead', 'all:TaskState.is_queued', 'all:TaskState.time_updated',
+             'all:TaskState.is_updated', 'all:TaskState.kill_failed', 'all:deque[TaskProxy][*]']
 
 contract('cylc.flow.data_store_mgr:DataStoreMgr.delta_task_state',
          sorts={'self': 'DataStoreMgr', 'itask': 'TaskProxy'}, assumed=True, props=PROPS,
          note='publishes the task state (C25: data store, not modelled); writes nothing the pool reads')
 
 contract(P + 'set_stop_point',
-         sorts={'self': 'TaskPool', 'stop_point': 'IntegerPoint', 'itask': 'TaskProxy', 'result': 'bool'},
+         sorts={'self': 'TaskPool', 'stop_point': 'IntegerPoint', 'itask': 'TaskProxy', 'result': 'bool',
+                'unqueue': 'bool'},
          requires=['wf_pool(self)', 'pt_ok(stop_point)', 'pool_points_ok(self)',
                    'self.stop_point is None or pt_ok(self.stop_point)',
                    'self.runahead_limit_point is None or pt_ok(self.runahead_limit_point)'],
@@ -57,7 +58,10 @@ contract(P + 'set_stop_point',
                  'implies(result and old(self.runahead_limit_point) is not None '
                  'and ipt(old(self.runahead_limit_point)) > ipt(stop_point), '
                  'forall(lambda p, i: implies(inpool(self, p, i) and ipt(at(self, p, i).point) > ipt(stop_point) '
-                 'and at(self, p, i).state.status == "waiting", at(self, p, i).state.is_runahead), '
+                 'and at(self, p, i).state.status == "waiting", at(self, p, i).state.is_runahead '
+                 # ... and no longer carry the queued flag (they were taken out of their queue just before),
+                 # unless manually triggered - "no task beyond it is submitted (unless manually triggered)"
+                 'and (at(self, p, i).is_manual_submit or not at(self, p, i).state.is_queued)), '
                  'p="str", i="str"))',
              'nothing-is-released-or-changes-status':
                  'forall(lambda p, i: implies(inpool(self, p, i), '
@@ -73,7 +77,8 @@ contract(P + 'set_stop_point',
              'forall(lambda j: implies(0 <= j and j < _i and '
              'ipt(self._active_tasks_list[j].point) > ipt(stop_point) '
              'and self._active_tasks_list[j].state.status == "waiting", '
-             'self._active_tasks_list[j].state.is_runahead))',
+             'self._active_tasks_list[j].state.is_runahead and (self._active_tasks_list[j].is_manual_submit '
+             'or not self._active_tasks_list[j].state.is_queued)))',
              'forall(lambda p, i: implies(inpool(self, p, i) and old(at(self, p, i).state.is_runahead), '
              'at(self, p, i).state.is_runahead), p="str", i="str")',
          ], modifies=_LOOP_MOD)},
